@@ -134,7 +134,28 @@ func genC12(g *Gen, tier string, w *bufio.Writer) {
 }
 
 // mem T x<bytes>: bytes allocated by one decode call (second run, GC off): ok <alloc> <outcome>
+// memHuge counts measured decode calls that allocated more than memHugeBytes.  On a tree whose
+// decoders allocate by an offset or a limit every such call costs seconds; once memHugeMax of
+// them have been recorded (each one a reported violation with its input) the remaining mem /
+// fl.mem ops of the run are answered `ok 0 skipped`, so that a broken tree is reported in
+// minutes rather than hours.  Never reached on a tree that satisfies the bound.
+var memHuge int
+
+const memHugeBytes = 32 << 20
+const memHugeMax = 24
+
+func memSkip() bool { return memHuge >= memHugeMax }
+
+func memNote(n uint64) {
+	if n > memHugeBytes {
+		memHuge++
+	}
+}
+
 func execMem(st *State, a []string) string {
+	if memSkip() {
+		return "ok 0 skipped"
+	}
 	p := &parser{toks: a}
 	t := p.ty()
 	bs := unhex(p.next())
@@ -158,8 +179,12 @@ func execMem(st *State, a []string) string {
 		runtime.ReadMemStats(&m1)
 		return m1.TotalAlloc - m0.TotalAlloc, outcome
 	}
-	run()
+	if n0, oc0 := run(); n0 > memHugeBytes {
+		memNote(n0) // no second (measured) run of a call that is already far beyond any bound
+		return fmt.Sprintf("ok %d %s", n0, oc0)
+	}
 	n, oc := run()
+	memNote(n)
 	return fmt.Sprintf("ok %d %s", n, oc)
 }
 
